@@ -28,7 +28,7 @@ RULE = (
     "exhaustive over a family of signature shapes: 1-3 parameters x kinds {positional-only, positional-or-keyword, keyword-only} x "
     "{annotated tensor, plain} x defaults {none, conforming tensor, violating tensor, [], {}, None, 3, (1,2)} x binding {function, method, "
     "classmethod, staticmethod} x call style {positional, keyword, defaults omitted}; every case is run on a decorated function and on its "
-    "undecorated twin (name, doc, signature, arguments seen by the body, returned object, propagated exception); dataclass option sets "
+    "undecorated twin (name, doc, signature, arguments seen by the body, returned object, propagated exception), plus a `functools.wraps` decorator underneath that records how every argument arrives; dataclass option sets "
     "{frozen, slots, kw_only, eq, defaults} and NamedTuples with/without defaults: fields, ==, repr, isinstance, immutability, pickle, copy; dataclasses with annotated names "
     "that hold no value after __init__ (field(init=False), ClassVar, InitVar, a tensor set in __post_init__, with slots / frozen). "
     "non-trivial = distinct case with at least one annotated parameter/field"
@@ -390,6 +390,11 @@ def expect(case, got):
 
 
 def custom(run, tier):
+    # the decorated callable is called with exactly what the caller passed: only a callee that can tell `f(a, 2)` from `f(a, y=2)`
+    # (another `functools.wraps` decorator underneath) notices — the pass-through observation of checks/c02.py
+    from checks import c02
+
+    c02.custom(run, tier, only_passthrough=True)
     cs = func_cases(tier, run.rng)
     run.observe(cs, observe_func, expect, "decorated function differs from its undecorated twin")
     run.observe(class_cases(), observe_class, expect, "decorated class differs from its undecorated twin")
